@@ -113,6 +113,7 @@ theorem notice_names_its_sender (H : Bytes → Bytes) (s : State) (m : Msg) (l :
       · rw [l1.2.1] at h; cases h
       · split at h
         · simp [abort] at h
+        · simp [abort] at h
         · next s2 hv =>
           have l2 : Live s2 := by
             split at hv
@@ -120,10 +121,43 @@ theorem notice_names_its_sender (H : Bytes → Bytes) (s : State) (m : Msg) (l :
             · exact l1.of_sameLife (verifyMessage_sameLife _ _ _ hv)
           exact (finalize_noPeerStop H _ s2 l2).1 f h
 
+/-- A sender is blamed for a failing message only when that message shows the SAME view of the previous
+    round's broadcasts as ours: a message computed on another view (somebody equivocated) is answered with the
+    culprit-less "broadcast verification failed", never verified against our view. This is what keeps an
+    honest sender from being named when a third party equivocated. -/
+theorem blamed_only_under_same_view (s : State) (m : Msg) :
+    (verifyMessage s m = .bad → sameView s m = true) ∧ (verifyBroadcastMessage s m = .bad → sameView s m = true) := by
+  constructor
+  · intro h
+    unfold verifyMessage at h
+    split at h
+    · simp at h
+    · split at h
+      · simp at h
+      · split at h
+        · simp at h
+        · next hv => simpa using hv
+  · intro h
+    unfold verifyBroadcastMessage at h
+    split at h
+    · simp at h
+    · split at h
+      · simp at h
+      · next hv => simpa using hv
+
 /-- the culprit lists reported by `Result()` per kind of error -/
 theorem culprits_table (sc : Script) :
     culpritsOf sc .echoMismatch = [] ∧ culpritsOf sc .finalizeErr = [sc.self] ∧ culpritsOf sc .stopped = [sc.self] ∧
     (∀ f, culpritsOf sc (.msgFail f) = [f]) ∧ (∀ f, culpritsOf sc (.peerAbort f) = [f]) ∧
     (∀ cs, culpritsOf sc (.protoAbort cs) = cs) := ⟨rfl, rfl, rfl, fun _ => rfl, fun _ => rfl, fun _ => rfl⟩
+
+set_option maxRecDepth 16384 in
+/-- in the source, the view check precedes decoding, verification and storing, and a view mismatch aborts
+    without naming anybody -/
+theorem gen_echo_before_verify : MpsGen.Session.verifyOrder =
+    [ "h.sameBroadcastView(msg)", "getRoundMessage(msg, r)", "r.(round.BroadcastRound).StoreBroadcastMessage(roundMsg)",
+      "h.verifyMessage(msg)", "h.sameBroadcastView(msg)", "getRoundMessage(msg, r)", "r.VerifyMessage(roundMsg)",
+      "r.StoreMessage(roundMsg)", "errors.Is(err, errBroadcastVerification)",
+      "if errors.Is(err, errBroadcastVerification): h.abort(err)", "h.abort(err, from)" ] := by decide
 
 end Mps.C04
